@@ -15,6 +15,11 @@ mod symsync;
 mod timeddata;
 mod waveform;
 
+#[cfg(feature = "verif-hooks")]
+#[doc(hidden)]
+#[allow(missing_docs)]
+pub mod verif;
+
 #[cfg(not(test))]
 use log::{debug, info, trace, warn};
 
@@ -243,6 +248,12 @@ impl SameReceiver {
         for sample in audio_iter {
             // link-layer processing
             if let Some(link_state) = self.process_linklayer_high_rate(sample) {
+                #[cfg(feature = "verif-hooks")]
+                verif::tap_tick(
+                    self.input_sample_counter,
+                    self.squelch.symbol_count(),
+                    &link_state,
+                );
                 if link_state != self.link_state {
                     // report change
                     self.link_state = link_state.clone();
@@ -444,6 +455,8 @@ impl SameReceiver {
 
         // 4. adaptive equalization
         let (byte_est, adaptive_err) = self.equalizer.input(&squelch_out.samples);
+        #[cfg(feature = "verif-hooks")]
+        verif::tap_byte(squelch_out.symbol_counter, is_resync, byte_est);
 
         trace!(
             "byte: {:#04x} \"{:?}\", sym pwr: {:0.2}, adapt err: {:0.2}",
